@@ -1233,6 +1233,11 @@ func (a *alertState) triggered(t time.Time) {
 func (a *alertState) addEvent(t time.Time, level alert.Level) {
 	// Check for changes
 	a.changed = a.history[a.idx] != level
+	if a.changed && a.history[a.idx] == alert.OK {
+		// Record when the alert left the OK state even if no event
+		// gets triggered for it (i.e. while flapping).
+		a.firstTriggered = t
+	}
 
 	// Add event to history
 	a.idx = (a.idx + 1) % len(a.history)
